@@ -322,6 +322,11 @@ def families(hole_size):
         inner = ("call0", ("fn0", ("def", h)))
         out.append(("nested-def-read-in-fn", ("do", ("def", ("nil",)), ("call0", ("fn0", ("do", ("def", ("one",)), ("do", inner, G)))))))
         out.append(("nested-def-read-after", ("do", ("call0", ("fn0", ("do", ("def", ("one",)), inner))), G)))
+    # a function that reads a name and def's it later, and a def whose init reads the name being def'ed (Python wants a
+    # `global` declaration before the first use in the function, wherever the def sits)
+    for h in closed:
+        out.append(("def-after-read-in-fn", ("do", ("def", ("one",)), ("call0", ("fn0", ("let", G, ("do", ("def", h), ("vec", ("var", 0), G))))))))
+        out.append(("def-init-reads-itself", ("do", ("def", ("one",)), ("do", ("call0", ("fn0", ("def", ("if", G, h, ("nil",))))), G))))
     # try / catch / finally combinations around throwing and non-throwing bodies
     for h in closed:
         out.append(("try-finally-catch", ("try", ("finally", h, ("one",)), ("vec", ("var", 0), ("nil",)))))
